@@ -41,6 +41,8 @@ type e4Config struct {
 	PingDelayMs int `json:"pingDelayMs,omitempty"`
 	// OnErrorCalls: the OnError callback reads the client's statistics and current BaseClient (an application logging them)
 	OnErrorCalls bool `json:"onErrorCalls,omitempty"`
+	// AppPingOnSilence: as soon as a peer goes silent the application itself calls Ping without a deadline (a health probe)
+	AppPingOnSilence bool `json:"appPingOnSilence,omitempty"`
 	// KeepAliveS: the keep-alive value requested in CONNECT (WithKeepAlive), seconds
 	KeepAliveS int `json:"keepAliveS,omitempty"`
 }
@@ -514,6 +516,13 @@ func e4RunBody(c e4Case, started chan<- *e4Env) (res *e4Result) {
 	ctx, cancel := context.WithCancel(context.Background())
 	defer cancel()
 	e.ctx = ctx
+	if c.Cfg.AppPingOnSilence {
+		b.onSilent = func(bc *vbConn) {
+			log.add(bc.id, "APP-PING", nil, "called")
+			err := cli.Ping(ctx) // no deadline of its own: it ends when the connection does
+			log.add(bc.id, "APP-PING", nil, fmt.Sprintf("returned %v", err))
+		}
+	}
 
 	connected := false
 	var discConn *vbConn // the healthy connection that a "disconnect" step ended gracefully
